@@ -16,8 +16,9 @@ import time
 import traceback
 
 VERIF = os.path.dirname(os.path.dirname(os.path.abspath(__file__)))
-REPLAYS = os.path.join(VERIF, "replays")
-EVIDENCE = os.path.join(VERIF, "evidence")
+_SCRATCH = os.environ.get("KIO_REPO", "/repo") != "/repo"     # a run against a scratch copy must not touch the evidence
+REPLAYS = os.path.join("/tmp/kvc_scratch" if _SCRATCH else VERIF, "replays")
+EVIDENCE = os.path.join("/tmp/kvc_scratch" if _SCRATCH else VERIF, "evidence")
 
 TRUSTED_BASE = [
     "CPython 3.12 semantics of the supported statement/expression subset as implemented by kvc/interp.py "
